@@ -25,7 +25,13 @@ KINDS = {
     # two described fields, a struct-coded one before one without struct code (the sync hooks are indexed)
     'two': (["length = Int(1).describe(AutoLength('a'))", "m = Int(3).describe(AutoLength('b'))", 'a = Data(length)', "b = Data(m, default=b'pq')"], None),
     'two-rev': (["m = Int(3).describe(AutoLength('b'))", "length = Int(1).describe(AutoLength('a'))", "b = Data(m, default=b'pq')", 'a = Data(length)'], None),
+    # the described field is also positioned (its move pseudo-field precedes it in the field list)
+    'at': (["length = Int(1).describe(AutoLength('a')).at(1)", 'a = Data(length)'], None),
+    'class-align': (['x = Int(1)', "length = Int(1).describe(AutoLength('a'))", 'a = Data(length)'], None, {'align': 2}),
+    'shift-aligned': (['x = Int(1)', "length = Int(1).shift(1).describe(AutoLength('a'))", 'a = Data(length).aligned(4)'], None),
+    'at-wide': (["length = Int(2).describe(AutoLength('a')).at(1)", 'y = Int(2)', 'a = Data(length)'], None),
 }
+SHALLOW = ('at', 'class-align', 'shift-aligned', 'at-wide')      # explored one level less deep
 CODEPATHS = {
     'generated': {},
     'generic': {'generate_for_pack': False, 'generate_for_unpack': False},
@@ -36,8 +42,8 @@ CODEPATHS = {
 
 
 def source(kind, path):
-    lines, wrap = KINDS[kind]
-    src = mk.class_src('K', lines, CODEPATHS[path])
+    lines, wrap = KINDS[kind][:2]
+    src = mk.class_src('K', lines, dict(CODEPATHS[path], **(KINDS[kind][2] if len(KINDS[kind]) > 2 else {})))
     if wrap:
         src += '\n' + mk.class_src('W', wrap, CODEPATHS[path])
     return src
@@ -53,6 +59,12 @@ def encode(kind, length, a):
         return bytes([length & 0xff]) + b'\x00\x00\x02' + a + b'pq'
     if kind == 'two-rev':
         return b'\x00\x00\x02' + bytes([length & 0xff]) + b'pq' + a
+    if kind == 'at':
+        return b'.' + body
+    if kind in ('class-align', 'shift-aligned'):
+        return b'\x00.' + bytes([length & 0xff]) + b'.' + a
+    if kind == 'at-wide':
+        return b'.\x00' + bytes([length & 0xff]) + b'\x00\x00' + a
     return body
 
 
@@ -67,6 +79,12 @@ def raw_for(kind, r):
         return b'\x00' + r[:1] + b'\x00\x00' + r[1:]
     if kind in ('sub', 'sub-proto'):
         return b'\x00' + r + b'\x00'
+    if kind == 'at':
+        return b'.' + r
+    if kind in ('class-align', 'shift-aligned'):
+        return b'\x00.' + r[:1] + b'.' + r[1:]
+    if kind == 'at-wide':
+        return b'.\x00' + r[:1] + b'\x00\x00' + r[1:]
     return r
 
 
@@ -189,7 +207,7 @@ def _shard(shard, nshards, payload):
             with mk.World() as w:
                 mod = w.module(source(kind, path))
                 st.inc('programs') if shard == 0 else None
-                for d in range(0, depth + 1):
+                for d in range(0, depth + (0 if kind in SHALLOW else 1)):
                     for hist in itertools.product(OPS, repeat=d):
                         for ii, init in enumerate(INITS):
                             idx += 1
@@ -219,7 +237,7 @@ def run(tier):
         'states': st.count('states'), 'transitions': st.n.get('transitions', 0),
         'traces_validated_against_impl': st.n.get('histories', 0), 'evaluations': st.n.get('histories', 0),
         'distinct_nontrivial': st.count('states'), 'programs': len(KINDS) * len(CODEPATHS),
-        'rule': 'all histories of length 0..%d over %d operations (set a x3, set length x3, del length, pack, unpack) from %d initial states, for %d class kinds '
+        'rule': 'all histories of length 0..%d over %d operations (set a x3, set length x3, del length, pack, unpack) from %d initial states, for %d class kinds (the four positioned ones one level less deep) '
                 'x %d code paths, each on fresh real packets with a bystander packet; after every step attribute reads, pack(), no __dict__, bystander '
                 'unchanged vs the model (enabled, explicit, a); states = distinct (kind, code path, model state)' % (depth, len(OPS), len(INITS), len(KINDS), len(CODEPATHS)),
         'exhaustive': True, 'bounds': {'depth': depth}, 'distinct_outcomes': st.count('outcomes'), 'samples': st.samples,
